@@ -16,7 +16,7 @@ from vlib.core import g_list, g_nat, g_q, g_str
 
 IMPORTS = "From QV Require Import Common.Base Agg.Cvar Agg.AggCheck.\nFrom Coq Require Import QArith NArith."
 RTOL, ATOL = Fraction(1, 10**5), Fraction(1, 10**8)
-EDGE = Fraction(1, 10**12)  # an isclose decision closer than this to its boundary may go either way in floats
+EDGE = Fraction(1, 10**12)  # an isclose decision closer than this (relative to its reference) to its boundary may go either way in floats
 FLOAT_SLACK = Fraction(1, 10**12)
 
 
@@ -38,9 +38,10 @@ def cvar_exact(entries, alpha):
     return tot / alpha
 
 
-def isclose_q(a, b):
-    tol = ATOL + RTOL * abs(b)
-    return abs(a - b) <= tol, abs(abs(a - b) - tol)
+def isclose_q(a, b, atol=ATOL):
+    tol = atol + RTOL * abs(b)
+    # second component: distance of the decision from its boundary, relative to |b| (float errors are relative)
+    return abs(a - b) <= tol, abs(abs(a - b) - tol) / (abs(b) if b else 1)
 
 
 def accumulate_exact(entries, alpha):
@@ -53,7 +54,7 @@ def accumulate_exact(entries, alpha):
         p = min(alpha - g, p)
         e += p * v
         g += p
-        c, m = isclose_q(g, alpha)
+        c, m = isclose_q(g, alpha, atol=0)  # isclose(gathered, alpha, atol=0)
         edge = min(edge, m)
         if c:
             break
@@ -73,7 +74,7 @@ def no_break_possible(entries, alpha):
         g += p
         if g >= alpha:
             return True
-        if alpha - g <= ATOL + RTOL * alpha + EDGE:
+        if alpha - g <= (RTOL + EDGE) * alpha:
             return False
     return False  # the mass never reaches alpha (float probabilities summing to slightly less than alpha)
 
@@ -84,10 +85,10 @@ def bounds(entries, alpha):
     V, R = max(abs(v) for v in vs), max(vs) - min(vs)
     close1, _ = isclose_q(alpha, Fraction(1))
     if not close1:
-        b = (RTOL + ATOL / alpha) * V
+        b = RTOL * V  # C14_exact_or_close: within the relative resolution 1e-5 of the value scale
         return b, b
     if alpha == 1:
-        return Fraction(0), (Fraction(0) if all(p > RTOL + ATOL for p, _ in entries) else (RTOL + ATOL) * V)
+        return Fraction(0), (Fraction(0) if all(p > RTOL for p, _ in entries) else RTOL * V)  # C14_alpha_one_bitstring_sharp
     return (1 - alpha) * R, (RTOL + ATOL) * (R + V) / alpha
 
 
@@ -321,8 +322,8 @@ def gen_case(rng, big=False):
     if r < 0.04:
         case["alphas"] = [rng.choice(ALPHA_OUTSIDE)]
         case["alpha_np"] = rng.random() < 0.3
-    elif r < 0.03 and n > 1:
-        case["len"] = n - 1
+    elif r < 0.07 and n > 1:
+        case["len"] = n - 1  # the evaluator's input length differs from the key width: BitstringEvaluatorException
     return case
 
 
@@ -339,6 +340,79 @@ def boundary_cases():
             yield {"type": "agg", "n": 2, "shots": 4, "counts": [["01", 1], ["10", 2], ["11", 1]], "op": [[1.0, 1], [0.5, 2], [1.0, 1]],
                    "op_family": "duplicate-strings", "dist_type": "quasi", "alphas": [a], "alpha_np": np_}
             yield {"type": "ctor", "alpha": a, "alpha_np": np_}
+
+
+def gen_bits(rng):
+    """correspondence only: an int-keyed distribution (not what measure_quasi_distributions produces); Qiskit pads the
+    keys to the bit length of the LARGEST key, so an evaluator for a wider register rejects them"""
+    n = rng.randint(1, 4)
+    k = rng.randint(1, min(3, 2**n))
+    width = rng.randint(0, n)  # largest key below 2**width
+    keys = rng.sample(range(2**width), min(k, 2**width))
+    shots = rng.choice([2, 4, 8, 10])
+    cuts = sorted(rng.sample(range(1, shots), min(len(keys), shots) - 1))
+    counts = [b - a for a, b in zip([0] + cuts, cuts + [shots])]
+    keys = keys[: len(counts)]
+    family, terms, parts = gen_op(rng, n, rng.choice(["distinct-strings", "duplicate-strings", "single-z"]))
+    return {"type": "bits", "n": n, "shots": shots, "int_counts": [[k_, c] for k_, c in zip(keys, counts)], "op": terms, "op_family": family,
+            "alpha": rng.choice([1.0, 0.5, 0.25, 1.0])}
+
+
+def impl_bits(case):
+    from qiskit.result import QuasiDistribution
+
+    from queasars.circuit_evaluation.bitstring_evaluation import BitstringEvaluator
+    from queasars.circuit_evaluation.expectation_calculation import get_expectation_with_bitstring_evaluator
+
+    n, shots = case["n"], case["shots"]
+    dist = QuasiDistribution({int(k): c / shots for k, c in case["int_counts"]}, shots=shots)
+    try:
+        return read_result(get_expectation_with_bitstring_evaluator(dist, BitstringEvaluator(n, bit_function(case["op"], n)), case["alpha"]))
+    except Exception as e:
+        return ("err", type(e).__name__)
+
+
+def do_bits(ctx, case, glits, kept):
+    shots = case["shots"]
+    r = impl_bits(case)
+    vs = [value_of(case["op"], int(k)) for k, _ in case["int_counts"]]
+    widest = max(max(int(k) for k, _ in case["int_counts"]).bit_length(), 1)
+    ctx.tally("int-keys:" + ("full-width" if widest == case["n"] else "narrower-than-register"))
+    d = g_list(f"({g_n(int(k))}, {g_q(c / shots)})" for k, c in case["int_counts"])
+    op = g_list(f"({g_q(c)}, {g_n(m)})" for c, m in case["op"])
+    tol = float(Fraction(1, 10**9) * scale(vs) + Fraction(1, 10**15))
+    glits.append(f"CBits None {d} {op} {g_nat(case['n'])} {g_q(case['alpha'])} {g_q(tol)} {g_res(r)}")
+    kept.append(case)
+
+
+def gen_small_tail(rng):
+    """a handful of shots on the lowest value, alpha just beyond their mass: the missing mass (a few 1e-9) is far above
+    the relative tolerance rtol*alpha but within numpy's absolute tolerance 1e-8 — the pre-fix break (fix 254e190)
+    stopped here and was off by up to 1e-3 of the value scale"""
+    n = rng.randint(1, 3)
+    shots = rng.choice([10**5, 10**6])
+    c = rng.randint(1, 8 if shots == 10**5 else 80)
+    low = rng.randrange(2**n)
+    others = [s_ for s_ in range(2**n) if s_ != low]
+    rng.shuffle(others)
+    others = others[: rng.randint(1, len(others))]
+    cuts = sorted(rng.sample(range(1, shots - c), len(others) - 1))
+    counts = [[format(low, f"0{n}b"), c]] + [[format(s_, f"0{n}b"), b - a] for s_, a, b in zip(others, [0] + cuts, cuts + [shots - c])]
+    rng.shuffle(counts)
+    # value -a on `low`, +a*(something positive) elsewhere: Z-string with all qubits so that parity separates `low`
+    a = rng.choice([1.0, 2.0, 0.5])
+    sign = -1.0 if bin(low).count("1") % 2 == 0 else 1.0  # value of `low` under the full Z string is (-1)^popcount
+    op = [[sign * a, 2**n - 1], [rng.choice([0.0, 0.5, -1.0]), 0]]
+    if n > 1:  # make every other state strictly larger than `low`: large positive offset on states of the same parity
+        op = [[-3.0 * a, 0]] + [[a if ((low >> q) & 1) == 0 else -a, 1 << q] for q in range(n)]
+        # value(state) = -3a + sum_q +-a: minimal (= -3a - n*a) exactly at... the state with every term negative
+        low_state = sum(1 << q for q in range(n) if ((low >> q) & 1) == 0)
+        counts = [[format(low_state, f"0{n}b") if k == format(low, f"0{n}b") else (format(low, f"0{n}b") if k == format(low_state, f"0{n}b") else k), v] for k, v in counts]
+    delta = rng.choice([2e-9, 3e-9, 5e-9, 8e-9, 1e-8])
+    case = {"type": "agg", "n": n, "shots": shots, "counts": counts, "op": op, "op_family": "small-tail", "dist_type": "quasi"}
+    lowest = min(entries_of(case), key=lambda e: e[1])
+    case["alphas"] = sorted({float(lowest[0]) + delta, float(lowest[0]) + rng.choice([2e-9, 5e-9]), float(lowest[0])})
+    return case
 
 
 def gen_raw(rng):
@@ -471,7 +545,7 @@ def do_ctor(ctx, case, glits, kept):
 
 
 def do_case(ctx, case, glits, kept):
-    {"agg": do_agg, "raw": do_raw, "ctor": do_ctor}[case["type"]](ctx, case, glits, kept)
+    {"agg": do_agg, "raw": do_raw, "ctor": do_ctor, "bits": do_bits}[case["type"]](ctx, case, glits, kept)
 
 
 def run(ctx):
@@ -479,7 +553,7 @@ def run(ctx):
     ctx.rule = ("distributions from shot counts (shots in {1,2,4,8,10,100,1000,1024} and 1e5/1e6 for the tolerance branch; 1..2^n outcomes, n<=4, random dictionary order, ties) x diagonal "
                 "SparsePauliOp with small dyadic coefficients (families: distinct strings, single Z, duplicate strings, cancelling duplicates, repeated identity, unsimplified SparsePauliOp.sum, complex "
                 "coefficients with zero imaginary part; a state's value is the sum over all terms) and its diagonal as bitstring function x 2-5 alphas from {1, 1/2, 1/4, 0.1, 1-1e-7, 0.99999, c/shots, prefix masses of the "
-                "sorted distribution and values just beside them, random}; a tiny-alpha family {1e-12 .. 1e-6} (below every probability: the exact minimum is demanded); every boundary value of alpha (0, -0.0, tiny negatives, 1+ulp, >1; int/float/numpy) on both functions and both evaluator constructors expecting ValueError; both paths per alpha; distinct = distinct (distribution, operator, alphas); non-trivial = at least two outcomes")
+                "sorted distribution and values just beside them, random}; a tiny-alpha family {1e-12 .. 1e-6} (below every probability: the exact minimum is demanded); every boundary value of alpha (0, -0.0, tiny negatives, 1+ulp, >1; int/float/numpy) on both functions and both evaluator constructors expecting ValueError; a correspondence-only family of int-keyed distributions narrower than the register (outside the property: Qiskit pads int keys to the largest key); both paths per alpha; distinct = distinct (distribution, operator, alphas); non-trivial = at least two outcomes")
     cases = []
     cdir = core.ROOT / "corpus" / "C14"
     for fpath in sorted(cdir.glob("*.json")) if cdir.exists() else []:
@@ -492,10 +566,14 @@ def run(ctx):
         cases.append(gen_case(ctx.rng, big=True))
     for _ in range(ctx.n(100, 2000)):
         cases.append(gen_raw(ctx.rng))
+    for _ in range(ctx.n(60, 1000)):
+        cases.append(gen_bits(ctx.rng))
+    for _ in range(ctx.n(60, 1500)):
+        cases.append(gen_small_tail(ctx.rng))
     glits, kept = [], []
     for c in cases:
         do_case(ctx, c, glits, kept)
-        size = len(c["counts"]) if c["type"] == "agg" else len(c["entries"]) if c["type"] == "raw" else 0
+        size = len(c["counts"]) if c["type"] == "agg" else len(c["entries"]) if c["type"] == "raw" else len(c["int_counts"]) if c["type"] == "bits" else 0
         ctx.case(c, size >= 2, sample=c if len(ctx.samples) < 3 and c["type"] == "agg" and size >= 2 else None)
     bad = core.model_mismatches("C14", IMPORTS, "check_case", glits, chunk=200)
     for i in bad[:5]:
